@@ -16,7 +16,8 @@ REG = {
         'exhaustively within small constants for one-outcome, never-late, count bound, one-NACK; the real libcoap client is then run on the '
         'link-time simulator over every drop subset of the first 10 datagrams, every answered-copy x answer-kind x timing, two sessions '
         'sharing the send queue, cross-peer ACK/RST and seeded random schedules, and every recorded trace is validated by TLC against the '
-        'same actions (retransmission instants T,2T,4T exact to the ms, byte identity, reported epoll wait <= earliest deadline, exactly one NACK).',
+        'same actions (retransmission instants T,2T,4T exact to the ms, byte identity, reported epoll wait <= earliest deadline, exactly one NACK).'
+        ' Later additions: keepalive pings (Reliability!Ping: a Confirmable of the library\'s own, ended by the pong without NACK; closed model MC_Reliability_ping), several sessions under one message id, transient send errors (TxFail).',
    note='Trusted: TLC, the simulator (ld --wrap of coap_ticks/epoll_wait/epoll_ctl/coap_socket_send/recv), the scripted peer. T is inferred from '
         'the first retransmission and must lie in [ACK_TIMEOUT, ACK_TIMEOUT*RF] +- 16 ms (Q6 rounding). Known finding KF_C06_RST_RENACK is reported, not failed.'),
  'C07': dict(module='msg', engine='msg', category='model_checking', design_ref='4/C07',
@@ -24,7 +25,8 @@ REG = {
    text='Exchange layer (open/concluded per token, piggybacked / separate CON / NON responses, ACK owed for every CON response incl. duplicates, '
         'RST owed after FAIL, cancel-by-token) model-checked for conclude-at-most-once, then every response style x loss x duplication x delay '
         '(< ACK_TIMEOUT) x verdict on sequences of 1-3 requests is executed by the real client on the simulator and validated by TLC; obligations '
-        '(deliver, ack, rst, nack) must be discharged before virtual time advances.',
+        '(deliver, ack, rst, nack) must be discharged before virtual time advances.'
+        ' Later additions: a real libcoap server whose handlers defer their answers (coap_register_async, released by the application or timed) as the peer of the client (drv_rel srv=1), every single fault on every datagram in both directions; the handler is called for a deferred answer when it is due, not before.',
    note='Preconditions of the statement (one exchange outstanding per session, delay < ACK_TIMEOUT, de-duplicating server) are tracked in the '
         'trace spec; executions outside them are discarded and counted. Known finding KF_C07_OLD_DUPLICATE is reported, not failed.'),
  'C08': dict(module='msg', engine='msg', category='model_checking', design_ref='4/C08',
@@ -32,7 +34,8 @@ REG = {
    text='NSTART bound and FIFO of held messages are invariants/guards of Reliability, model-checked in MC_Reliability; bursts of 1-6 CON/NON '
         'submissions x NSTART 1-3 x ack/rst/none/piggy/separate reactions in increasing/decreasing/equal delay order, a peer resetting every copy, '
         'several sessions, and random bursts are executed by the real client and validated: no Tx beyond NSTART, head-of-queue only, nothing held '
-        'while a slot is free when time advances, NON never held, nothing left held when quiet.',
+        'while a slot is free when time advances, NON never held, nothing left held when quiet.'
+        ' Later additions: keepalive pings take part in the NSTART accounting (a pong frees the slot), a held message released into a failing socket keeps its slot.',
    note='The "submitted before the session is established" clause is exercised on DTLS by C19 (UDP sessions are established on creation). '
         'Trusted as for C06.'),
  'C01': dict(module='codec', engine='codec', category='model_checking', design_ref='4/C01',
@@ -41,7 +44,8 @@ REG = {
         'sequence over a boundary alphabet keeps options ordered and round-trips under all three framings. The real PDU API is then driven '
         'through token x type x code x payload boundaries, every insertion order of option sets placed on the 12/13 and 268/269 delta and length '
         'boundaries, max_size exact-fit bands, refusal cases, implicit Hop-Limit, and random call sequences; TLC checks each return value, each '
-        'accessor dump, each of the UDP/TCP/WS encodings byte-exactly against the RFC operators, and each re-parse.',
+        'accessor dump, each of the UDP/TCP/WS encodings byte-exactly against the RFC operators, and each re-parse.'
+        ' The write side of the WebSocket transport: a real server session answers requests whose echoed payload makes the responses 100..140 bytes long; every frame written is judged by Stream!WsWritten (complete, unmasked, minimal length form, one well-formed message).',
    note='Long opaque values are pattern blobs abbreviated as runs (DESIGN.md 2.4); the 32-bit TCP length form cannot be produced by this build '
         '(max PDU 65804) and is exercised only on the parse side (C03/C05). Trusted: TLC, the driver\'s atom projection.'),
  'C03': dict(module='codec', engine='codec', category='model_checking', design_ref='4/C03',
@@ -85,7 +89,8 @@ REG = {
         'handshake: keys equal / shorter / longer / prefix / one character off, identities known / unknown / near misses, identity check on and off, hint rejected, session released at '
         'various times, cleartext CoAP injected at the DTLS endpoint from a stranger and from the client address, loss of each early datagram. TLC requires: no request at the server handler '
         'and no response at the client handler unless the configuration matches; no CoAP header in clear on the wire; with a mismatch every queued Confirmable request is reported by exactly '
-        'one NACK and not only at context teardown; with a match and no disturbance the queued requests are delivered in order exactly once and answered exactly once.',
+        'one NACK and not only at context teardown; with a match and no disturbance the queued requests are delivered in order exactly once and answered exactly once.'
+        ' Queued requests that carry Observe (library-side state per request) and Non-confirmable ones among the queued; known finding KF_C19_APP_TOKEN_EQUALS_STATE_TOKEN is reported, not failed.',
    note='DTLS/PSK over UDP with GnuTLS only; TLS over TCP and PKI are not exercised; per-server-name (SNI) keys are. Under loss only safety is asserted (GnuTLS retransmission runs on the real clock).'),
  'C20': dict(module='wkc', engine='wkc', category='model_checking', design_ref='4/C20',
    technique='TLA+ operators for RFC 6690 listing/filter/window (TLC) + TLC judging every window, listing and block-wise GET of the real server',
@@ -103,7 +108,8 @@ REG = {
         'table to the SET of allowed outcomes; MC_Server checks it is total and consistent over a feature product. Request datagrams from the feature product '
         '(method x type x path x 6 tables, every option feature singly and in sampled pairs, invalid classes, multicast, random) are injected into a real server '
         'context on the simulator; for each, TLC decodes the raw bytes with CoapWire, evaluates Decide and checks at most one reply, its shape and code, that exactly '
-        'the prescribed handler ran once, and that it was given the request\'s options (Hop-Limit decremented), query, payload and token.',
+        'the prescribed handler ran once, and that it was given the request\'s options (Hop-Limit decremented), query, payload and token.'
+        ' Table 6: handlers that defer their answer (Trace_Server keeps the pending set): repeats of CON / NON requests while pending are acknowledged or ignored but never answered twice, the deferred answer comes once, after release, under the request\'s token, never as an ACK.',
    note='Where two rules apply any applicable outcome passes; library-generated error replies may or may not honour No-Response / multicast suppression. '
         'Proxy forwarding itself, Block/Observe side effects and diagnostic payload text are not constrained.'),
  'C05': dict(module='stream', engine='stream', category='model_checking', design_ref='4/C05',
@@ -133,7 +139,8 @@ REG = {
         'bounded histories. The real libcoap OSCORE server and client run on the simulator; every protected request is captured so that byte-identical replays and '
         'forgeries (claimed partial IV rewritten, ciphertext bit flipped) can be injected. Histories with gaps {1,2,31,32,33,63,64,65,1000}, replays at every distance '
         'around the window edges, older in-window messages, forged numbers below/at/above/far above the window, client restarts from the saved sequence number at every '
-        'point (ssn_freq 1/2/3/10), Appendix B.1.2 on and off, and random histories are executed; TLC judges each step (handler ran or not) and every partial IV on the wire.',
+        'point (ssn_freq 1/2/3/10), Appendix B.1.2 on and off, and random histories are executed; TLC judges each step (handler ran or not) and every partial IV on the wire.'
+        ' The AEAD seam (ld --wrap coap_crypto_aead_encrypt) logs every protection of either endpoint: a (key, nonce) pair protects one message (requests, responses, Echo challenges).',
    note='Acceptance is observed at the application handler of a full server context. An older, never accepted in-window request may get either verdict. '
         'UBSan reports inside the replay window code (shift >= 64) count as violations of this property.'),
  'C09': dict(module='block', engine='block', category='model_checking', design_ref='4/C09',
@@ -155,7 +162,8 @@ REG = {
         'on the simulator against scripted observers: every cancel cause, re-registration with the same and a new token, 1-4 clients x 1-3 resources with and '
         'without query, bursts of changes between I/O steps, three notification modes, counter wrap, idle periods beyond the session timeout and random '
         'histories. TLC requires every notification to go to a registered observer with its token and a strictly fresher Observe value, at most five NON in a '
-        'row, nothing after deregistration, one entry per key, and the last state to reach every observer still registered when the run is quiet.',
+        'row, nothing after deregistration, one entry per key, and the last state to reach every observer still registered when the run is quiet.'
+        ' Direction A: behaviours generated by TLC from Gen_Observe (the driver\'s commands as actions over Observe) are replayed into the real server; after every command the registered (client, resource) pairs the specification predicts are compared with libcoap\'s subscriber lists. Session loss (TCP) as a cause of deregistration is judged on the session driver.',
    note='Known finding KF_C11_RST_OLD_NOTIFICATION (RST for an older notification) is reported, not failed. Known finding KF_C11_PENDING_CHANGE_REPEATS_REGISTRATION_VALUE likewise. Notifications larger than one block are exercised (32-byte blocks, observer fetching the rest or not); the integrity of the blocks themselves is C09\'s subject.'),
  'C17': dict(module='persist', engine='persist', category='model_checking', design_ref='4/C17',
    technique='TLA+ spec Persist (update protocol with crash points, TLC) + kill at every intercepted stdio/rename call of the real code, restart, TLC judging files and restored state',
@@ -173,7 +181,8 @@ REG = {
         'references taken in handlers, observers, async entries, silent peers, RSTs, time jumps just before / at / after each timeout and coap_free_context at every prefix of a '
         'history using every holder. The allocator is interposed at link time: session objects are numbered by it, NEW / DEL events, handler invocations and datagrams must refer to '
         'allocated objects, a peer is always handled by its own session, one NEW and one DEL per session, no deletion while held or before the timeout, nothing idle overdue after an '
-        'I/O step, and after teardown the allocator balance is zero with no unknown free.',
+        'I/O step, and after teardown the allocator balance is zero with no unknown free.'
+        ' Direction A: behaviours generated by TLC from Gen_Sessions (the driver\'s commands as actions over Sessions, clock advancing with every command) are replayed into the real server; after every command the predicted set of peers with a live session is compared with the implementation\'s (Expect).',
    note='Use-after-release inside libcoap itself is observed by ASan (a report fails the check); the spec sees it only when an event names a released object. Client sessions are '
         'covered only through the ledger; stream (TCP) server sessions, their disconnect and the closed-but-held state are covered. The application is assumed to release its own references before freeing the context.'),
  'C13': dict(module='lock', engine='lock', category='model_checking', design_ref='4/C13',
